@@ -31,6 +31,7 @@ func init() {
 			ruleBinOpPairsMatched(r)
 			ruleStepBuffers(r) // per-step conservation: a reported step holds only what this step computed
 			ruleKeySiblings(r)
+			rulePerStepGroupTables(r, []string{"vectorAggIterator", "vectorAggHeapIterator", "binOpIterator"})
 		},
 	})
 }
